@@ -50,6 +50,7 @@ type ReverseSuffixSetSearcher struct {
 	suffixLiterals *literal.Seq // All suffix literals
 	matchStartZero bool         // True if pattern starts with .* (match always starts at 0)
 	revCachePool   sync.Pool
+	fwdCachePool   sync.Pool
 }
 
 // NewReverseSuffixSetSearcher creates a reverse suffix set searcher.
@@ -120,6 +121,9 @@ func NewReverseSuffixSetSearcher(
 		pikevm:         pikevm,
 		suffixLiterals: suffixLiterals,
 		matchStartZero: matchStartZero,
+	}
+	s.fwdCachePool = sync.Pool{
+		New: func() any { return s.forwardDFA.NewCache() },
 	}
 	s.revCachePool = sync.Pool{
 		New: func() any { return s.reverseDFA.NewCache() },
@@ -208,7 +212,11 @@ func (s *ReverseSuffixSetSearcher) FindAt(haystack []byte, at int) *Match {
 		// Use reverse DFA with anti-quadratic guard to find match start
 		matchStart := s.reverseDFA.SearchReverseLimited(revCache, haystack, at, suffixEnd, minStart)
 		if matchStart >= 0 {
-			return NewMatch(matchStart, suffixEnd, haystack)
+			// The candidate fixes the match START; the END is that of the
+			// leftmost-first match from there (a greedy prefix runs on to a later
+			// suffix: `(?s:.*\.(txt|log))` on ".log.txt" is [0 8], not [0 4]).
+			start, end := s.spanFrom(haystack, matchStart, suffixEnd)
+			return NewMatch(start, end, haystack)
 		}
 		if matchStart == lazy.SearchReverseLimitedQuadratic {
 			// Quadratic behavior detected - fall back to PikeVM
@@ -313,7 +321,8 @@ func (s *ReverseSuffixSetSearcher) findIndicesAtImpl(haystack []byte, at int, re
 		// Use reverse DFA with anti-quadratic guard to find match start
 		matchStart := s.reverseDFA.SearchReverseLimited(revCache, haystack, at, suffixEnd, minStart)
 		if matchStart >= 0 {
-			return matchStart, suffixEnd, true
+			start, end := s.spanFrom(haystack, matchStart, suffixEnd)
+			return start, end, true
 		}
 		if matchStart == lazy.SearchReverseLimitedQuadratic {
 			// Quadratic behavior detected - fall back to PikeVM
@@ -330,6 +339,23 @@ func (s *ReverseSuffixSetSearcher) findIndicesAtImpl(haystack []byte, at int, re
 			return -1, -1, false
 		}
 	}
+}
+
+// spanFrom returns the leftmost-first match of the full pattern that starts at
+// matchStart, a start confirmed by the reverse scan from a suffix candidate (candEnd
+// is the end of that candidate). Same forward verification as ReverseSuffixSearcher.
+func (s *ReverseSuffixSetSearcher) spanFrom(haystack []byte, matchStart, candEnd int) (start, end int) {
+	fwdCache := s.fwdCachePool.Get().(*lazy.DFACache)
+	end = s.forwardDFA.SearchAtAnchored(fwdCache, haystack, matchStart)
+	s.fwdCachePool.Put(fwdCache)
+	if end >= 0 {
+		return matchStart, end
+	}
+	// DFA gave up — fallback to PikeVM
+	if pStart, pEnd, found := s.pikevm.SearchAt(haystack, matchStart); found && pStart == matchStart {
+		return pStart, pEnd
+	}
+	return matchStart, candEnd
 }
 
 // IsMatch checks if the pattern matches using suffix set prefilter.
